@@ -47,6 +47,8 @@ type Program struct {
 	ssaPkgs map[string]*ssa.Package
 	allPkgs []*packages.Package // including deps, for SSA
 	Extra   bool
+	keyTab  map[pathKey]*types.Var
+	keyInfo map[types.Object]pathKey
 	GOARCH  string
 	GOOS    string
 }
